@@ -92,6 +92,10 @@ type Engine struct {
 	ctxReach     *Term
 	snaps        map[int]*State
 	pureFns      map[*Term]bool
+	cellClosure  map[*Term]*Closure
+	locals       []*localObj
+	escaped      map[*Term]bool
+	escSeen      map[*Term]bool
 	snapCount    int
 }
 
@@ -101,7 +105,7 @@ func NewEngine(P *Program) *Engine {
 		typeIDs: map[string]int{}, typeByID: map[int]types.Type{}, strLitText: map[string]string{},
 		assumption: map[string]bool{}, inlined: map[string]bool{}, usedCtr: map[string]bool{}, funcsSeen: map[string]bool{},
 		writeMemo: map[string]*writeSet{}, loopInfo: map[*ssa.Function]*loopInfo{}, globalRefs: map[string]*Term{}, maxDepth: 60,
-		closureByRef: map[*Term]*Closure{}, retMemo: map[*ssa.Function]*retOrigin{}, negMemo: map[*Term][]*Term{}, snaps: map[int]*State{}, pureFns: map[*Term]bool{}, arithChecked: map[*ssa.Function]bool{}}
+		closureByRef: map[*Term]*Closure{}, retMemo: map[*ssa.Function]*retOrigin{}, negMemo: map[*Term][]*Term{}, snaps: map[int]*State{}, pureFns: map[*Term]bool{}, cellClosure: map[*Term]*Closure{}, escaped: map[*Term]bool{}, escSeen: map[*Term]bool{}, arithChecked: map[*ssa.Function]bool{}}
 	tb := E.tb
 	tb.DeclSort(SRef)
 	tb.DeclSort(SUnit)
@@ -487,6 +491,9 @@ func (E *Engine) iteVal(c *Term, a, b Val) Val {
 	case *Term:
 		y, ok := b.(*Term)
 		if !ok {
+			if yc, isC := b.(*Closure); isC {
+				return E.tb.Ite(c, x, E.closureRef(yc))
+			}
 			E.fail("cannot merge term with %T", b)
 		}
 		return E.tb.Ite(c, x, y)
@@ -505,7 +512,17 @@ func (E *Engine) iteVal(c *Term, a, b Val) Val {
 			}
 			return &Closure{fn: x.fn, bind: nb}
 		}
-		E.fail("cannot merge distinct closures (%s)", x.fn)
+		// different function values on different paths: an opaque function reference
+		var yt *Term
+		switch y := b.(type) {
+		case *Closure:
+			yt = E.closureRef(y)
+		case *Term:
+			yt = y
+		default:
+			E.fail("cannot merge closure with %T", b)
+		}
+		return E.tb.Ite(c, E.closureRef(x), yt)
 	case *Addr:
 		if y, ok := b.(*Addr); ok && y.key == x.key && y.kind == x.kind && len(y.path) == len(x.path) {
 			same := true
@@ -672,6 +689,12 @@ func (E *Engine) exec(fr *Frame, st *State, instr ssa.Instruction) {
 		r := E.newRef(st, sanitize(t.Comment), fr.spec)
 		E.storeObj(st, r, elem, E.zero(elem, fr.tenv), fr.tenv)
 		fr.env[t] = r
+		if !fr.spec && !hasNestedStruct(E, elem, fr.tenv) {
+			tenv := fr.tenv
+			keys := map[string]bool{}
+			E.objKeys(elem, tenv, keys)
+			E.registerLocal(r, keys, func(dst, src *State) { E.storeObj(dst, r, elem, E.loadObj(src, r, elem, tenv), tenv) })
+		}
 	case *ssa.FieldAddr:
 		fr.env[t] = E.fieldAddr(fr, st, t)
 	case *ssa.IndexAddr:
@@ -755,6 +778,12 @@ func (E *Engine) exec(fr *Frame, st *State, instr ssa.Instruction) {
 			bind = append(bind, E.value(fr, b))
 		}
 		fr.env[t] = &Closure{fn: t.Fn.(*ssa.Function), bind: bind}
+		if E.P.IsGhost(fr.fn) == false {
+			// a captured variable may be read or written whenever the closure runs
+			for _, b := range bind {
+				E.escape(b)
+			}
+		}
 	case *ssa.Slice:
 		fr.env[t] = E.slice(fr, st, t)
 	case *ssa.Range:
@@ -861,6 +890,9 @@ func (E *Engine) unop(fr *Frame, st *State, t *ssa.UnOp) Val {
 		case *Addr:
 			v = E.loadAddr(st, a)
 		case *Term:
+			if cl, ok := E.cellClosure[a]; ok && cl != nil {
+				return cl
+			}
 			if g, ok := t.X.(*ssa.Global); ok && g.Name() == "EnableUnsafeAssertions" && g.Pkg != nil && strings.HasSuffix(g.Pkg.Pkg.Path(), "/features") {
 				// E11: the CI-only switch that turns checks into log.Fatalf / panic is taken as off
 				E.note("features.EnableUnsafeAssertions (a CI-only switch that turns checks into panics) is taken as false (E11)")
@@ -926,13 +958,22 @@ func (E *Engine) note(s string) { E.assumption[s] = true }
 
 func (E *Engine) store(fr *Frame, st *State, addr ssa.Value, val Val, instr ssa.Instruction) {
 	a := E.value(fr, addr)
+	E.escape(val)
 	var v *Term
 	switch x := val.(type) {
 	case *Term:
 		v = x
 	case *Closure:
-		// storing a function value: keep it as an engine-level value when the target is a local cell
+		// storing a function value: remember which closure a local cell holds (captured function
+		// variables are written once), so that a later load resolves to it even across a havoc
 		v = E.closureRef(x)
+		if at, ok := a.(*Term); ok && at.kind == kConst && isAddrConst(at.atom) {
+			if prev, seen := E.cellClosure[at]; seen && prev != x {
+				E.cellClosure[at] = nil // ambiguous
+			} else {
+				E.cellClosure[at] = x
+			}
+		}
 	case *Addr:
 		E.fail("interior pointer stored to memory in %s (outside subset)", fr.fn)
 	default:
